@@ -6,6 +6,8 @@ AllActs  == {"Add", "WriteLater", "Gap", "PruneAge", "Purge", "Recreate", "Read"
 SeqActs  == {"Add", "WriteLater", "Gap", "PruneAge", "Purge", "Recreate", "Read"}
 BehActs  == {"Add", "WriteLater", "PruneAge", "Purge", "Recreate", "Read"}
 CoreActs == {"Add", "WriteLater", "PruneAge", "Read"}
+RaceActs == {"Add", "PruneAge", "Purge", "Split", "Recreate"}
+D1 == <<"a">>
 (* quick tier: the deeper exhaustive set is generated for one cache length per run (chosen by the seed) *)
 EnvMaxLens == {atoi(IOEnv.VERIF_C01_MAXLEN)}
 (* Simulation: TLC picks uniformly among SUCCESSOR STATES, so with Next the many-argument actions (reads, writes) swamp
